@@ -95,8 +95,15 @@ def installation(draw, gen: int, *, max_acs: int = 4, force_zero_zones=None, com
     sep = "|" if gen == 4 else ","
     vtxt = st.text(st.characters(min_codepoint=0x21, max_codepoint=0x7E, exclude_characters=sep), min_size=1, max_size=10)
     version = {"update": draw(st.booleans()), "versions": draw(st.lists(vtxt, min_size=1, max_size=2))}
+    # wire order of the records in the names and ability answers: every record carries its own number, so any order
+    # is legal (ascending two times out of three)
+    names_order = list(zone_ids)
+    ability_order = list(ac_numbers)
+    if draw(st.integers(0, 2)) == 0:
+        names_order = list(draw(st.permutations(zone_ids)))
+        ability_order = list(draw(st.permutations(ac_numbers)))
     return {"gen": gen, "form": form, "acs": acs, "zones": {str(k): v for k, v in zones.items()}, "version": version,
-            "zero_zones": bool(gen == 5 and not zones)}
+            "zero_zones": bool(gen == 5 and not zones), "names_order": names_order, "ability_order": ability_order}
 
 
 def zones_of(inst) -> dict:
@@ -205,6 +212,9 @@ class Writer:
 
     def names(self, **kw) -> bytes:
         zs = zones_of(self.inst)
+        order = self.inst.get("names_order")
+        if order is not None:
+            zs = {z: zs[z] for z in order}
         if self.gen == 4:
             return self.frame(0x1F, rc.write4_group_names(zs), **kw)
         if not zs:
@@ -213,7 +223,8 @@ class Writer:
 
     def ability(self, **kw) -> bytes:
         acs = []
-        for a in self.inst["acs"]:
+        by_number = {a["number"]: a for a in self.inst["acs"]}
+        for a in [by_number[n] for n in self.inst.get("ability_order") or list(by_number)]:
             d = dict(a)
             d["modes"], d["fans"] = set(a["modes"]), set(a["fans"])
             if self.gen == 4:
